@@ -107,6 +107,15 @@ def xi_grad(Am, Mm, neig, blocks, G, method, opkind, bck=None, create_graph=Fals
     return gr, leaves, (ev.detach(), evec.detach())
 
 
+def forward_accurate(Am, Mm, ev, evec, tol=1e-9):
+    """are the returned pairs accurate enough for a gradient comparison? (forward accuracy is C05's business; davidson loses
+    orthogonality on some degenerate spectra - see the C05 finding)"""
+    MX = (Mm @ evec) if Mm is not None else evec
+    res = Am @ evec - MX * ev.unsqueeze(-2)
+    Gm = evec.transpose(-2, -1).conj() @ MX
+    return float(res.abs().max()) < tol and float((Gm - torch.eye(Gm.shape[-1], dtype=Gm.dtype)).abs().max()) < tol
+
+
 def fd_directional(Am, Mm, neig, blocks, G, DA, DM, h=1e-5):
     f = lambda s: float(dense_loss(sym(Am + s * DA), sym(Mm + s * DM) if Mm is not None else None, neig, blocks, G))
     return (f(h) - f(-h)) / (2 * h)
@@ -191,6 +200,7 @@ def run(ctx):
                                   {"neig": neig})
         # ---- case table: gradients against references
         ntab = 0
+        skipped = [0]
         patterns = [(), (False,), (True,), (False, False), (True, False), (False, True), (True, True), (True, False, True), (False, True, True)]
         for gaps in patterns:
             neig = len(gaps) + 1
@@ -210,7 +220,10 @@ def run(ctx):
                             why = None
                             try:
                                 order2 = (not degenerate) and method in ("exacteig", "custom_exacteig") and not cplx
-                                gr, leaves, _ = xi_grad(Am, Mm, neig, blocks, G, method, opkind, create_graph=order2)
+                                gr, leaves, (ev_, evec_) = xi_grad(Am, Mm, neig, blocks, G, method, opkind, create_graph=order2)
+                                if method == "davidson" and not forward_accurate(Am, Mm, ev_, evec_):
+                                    skipped[0] += 1
+                                    continue
                                 if not all(bool(torch.isfinite(x).all()) for x in gr if x is not None):
                                     why = "non-finite gradient"
                                 else:
@@ -247,6 +260,50 @@ def run(ctx):
                                      "eiggrad/table/%s/%s" % (method, "degenerate" if degenerate else "separated")
                                 ctx.violation(kk, "symeig gradient, coincidences %s, neig %d of n %d, M=%s, method %s, %s operator%s: %s"
                                               % (list(gaps), neig, n, withM, method, opkind, ", complex" if cplx else "", why), {"gaps": list(gaps), "method": method, "M": withM})
+        # ---- batches mixing elements with and without coinciding eigenvalues: each element's gradient equals its unbatched one
+        for gaps in ((True,), (True, False), (False, True)):
+            neig = len(gaps) + 1
+            n = neig + 2
+            blocks = blocks_of(gaps)
+            for withM in (False, True):
+                for method, opkind in (("custom_exacteig", "dense"), ("davidson", "free"), ("exacteig", "dense")):
+                    for order in ((0, 1), (1, 0)):
+                        ntab += 1
+                        ctx.case(key=("mixed-batch", gaps, withM, method, order))
+                        A_deg, M_deg = build(n, spectrum_for(gaps, n), withM, g)
+                        A_sep, M_sep = build(n, spectrum_for(tuple(False for _ in gaps), n), withM, g)
+                        G = sym(torch.randn(n, n, generator=g, dtype=DT))
+                        elems = [(A_deg, M_deg), (A_sep, M_sep)]
+                        elems = [elems[i] for i in order]
+                        why = None
+                        try:
+                            Ab = torch.stack([a_ for a_, _ in elems]).requires_grad_()
+                            Mb = torch.stack([m_ for _, m_ in elems]).requires_grad_() if withM else None
+                            A = LinearOperator.m(sym(Ab), is_hermitian=True) if opkind == "dense" else HermOp(sym(Ab))
+                            M = (LinearOperator.m(sym(Mb), is_hermitian=True) if opkind == "dense" else HermOp(sym(Mb))) if withM else None
+                            kw = {"min_eps": 1e-11} if method == "davidson" else {}
+                            ev, evec = xitorch.linalg.symeig(A, neig=neig, mode="lowest", M=M, method=method, **kw)
+                            L = sum(loss_fn(ev[i], evec[i], blocks, G, None) for i in range(2))
+                            gb = torch.autograd.grad(L, [Ab] + ([Mb] if withM else []), allow_unused=True)
+                            if method == "davidson" and not all(forward_accurate(elems[i][0], elems[i][1], ev[i].detach(), evec[i].detach()) for i in range(2)):
+                                skipped[0] += 1
+                                continue
+                            for i in range(2):
+                                DA = sym(torch.randn(n, n, generator=g, dtype=DT))
+                                DM = sym(torch.randn(n, n, generator=g, dtype=DT)) * 0.3 if withM else None
+                                fd = fd_directional(elems[i][0], elems[i][1], neig, blocks, G, DA, DM)
+                                an = float((sym(gb[0][i]) * DA).sum()) + (float((sym(gb[1][i]) * DM).sum()) if withM else 0.0)
+                                tol = 2e-5 if method != "davidson" else 2e-4
+                                if abs(an - fd) > tol * max(1.0, abs(fd)):
+                                    why = "directional derivative %.8f of batch element %d (%s) differs from the central difference %.8f of that matrix alone" % (
+                                        an, i, "coinciding eigenvalues" if order[i] == 0 else "separated spectrum", fd)
+                        except Exception as e:
+                            why = "raised %s: %s" % (type(e).__name__, str(e)[:140])
+                        if why:
+                            ctx.violation("eiggrad/mixed-batch/%s" % method, "symeig(%s) on a batch mixing a matrix with coincidences %s and one with a separated spectrum%s: %s"
+                                          % (method, list(gaps), ", with M" if withM else "", why),
+                                          {"gaps": list(gaps), "method": method, "M": withM, "order": list(order), "G": G.tolist(),
+                                           "A": [a_.tolist() for a_, _ in elems], "Mm": [m_.tolist() if m_ is not None else None for _, m_ in elems]})
         # ---- svd: singular values and rank-one terms
         for (m_, n_) in ((4, 3), (3, 5), (4, 4)):
             for k in (1, 2):
@@ -268,7 +325,7 @@ def run(ctx):
                 except Exception as e:
                     ctx.violation("eiggrad/svd/raise", "svd gradient (%dx%d, k=%d) raised %s: %s" % (m_, n_, k, type(e).__name__, str(e)[:120]), {"m": m_, "n": n_})
     ctx.replayed = ninj
-    ctx.notes.update(injection_cases=ninj, table_cases=ntab, tlc_garbage_choices=len(cases))
+    ctx.notes.update(davidson_cases_skipped_for_inaccurate_forward=skipped[0], injection_cases=ninj, table_cases=ntab, tlc_garbage_choices=len(cases))
     ctx.assumptions += [
         "losses are basis-independent inside every degenerate block: sum_b c_b sum_{i in b} lambda_i + w_b tr(P_b G)",
         "degenerate reference: central differences (h = 1e-5) of the same loss evaluated with torch.linalg.eigh of the dense (Cholesky-reduced) matrices along generic symmetric directions that break the degeneracy; tolerance 2e-5 (2e-4 davidson)",
